@@ -5,12 +5,12 @@ CONSTANTS
   MaxHeader = 255
   Deviations = {}
   Bug = ""
-  Mode = "lk"
-  NC = 2
+  Mode = "tags"
+  NC = 3
   MaxBody = 3
   MaxPrefix = 2
-  SkipBytes = {0, 128}
-  Variants = {0}
+  SkipBytes = {0, 1, 128}
+  Variants = {0, 2}
   DimVals = {0, 3}
   MaxW = 2
   MaxH = 1
